@@ -188,6 +188,11 @@ def _resolve_ident(v, m, var):
 
 
 def run(ctx):
+    _run_templates(ctx)
+    access_isolation_rule(ctx)
+
+
+def _run_templates(ctx):
     ctx.explanation = ("The code generator writes DFIR surface syntax as text templates (parse_quote!) that dfir_lang later checks against its operator table at the user's build time. A necessary "
                        "condition for 'errors never surface in generated code' that is visible in the source: every operator invocation in those templates names an operator that dfir_lang "
                        "defines, with exactly its number of arguments, a number of persistence lifetimes and type arguments inside its ranges, and only input port names it declares. The writer "
@@ -272,3 +277,100 @@ def run(ctx):
                 ctx.inst(RP, k, sample={"line": m["line"], "declared": declared})
                 if declared is None or port not in declared:
                     ctx.violation(RP, k + "|undeclared-port", "the generator connects to input port `%s` of `%s`, which declares %s" % (port, op.name, declared), "%s:%s" % (f, m["line"]))
+
+
+def _offset(b, op, depth=0):
+    """how many units above the value read from the counter cell (`Cell::get`) an operand is; None if it cannot be read as get() + constant"""
+    from mir import op_place, pl_local, op_const
+    p = op_place(op)
+    if p is None or depth > 10:
+        return None
+    l = pl_local(p)
+    defs = b.defs_of(l)
+    if len(defs) != 1:
+        return None
+    bb, idx, rv = defs[0]
+    if idx == "term":
+        f = rv.get("f") or {}
+        return 0 if f.get("name") == "get" and "cell" in f.get("def", "") else None
+    if rv["k"] == "use":
+        return _offset(b, rv["ops"][0], depth + 1)
+    if rv["k"] == "bin" and rv["op"].startswith("Add"):
+        a, c_ = rv["ops"]
+        k = op_const(c_)
+        base = _offset(b, a, depth + 1)
+        if base is not None and k is not None:
+            m = re.match(r"^(\d+)", str(k))
+            if m:
+                return base + int(m.group(1))
+        return None
+    return None
+
+
+def access_isolation_rule(ctx, rid="C41.accessiso"):
+    """A `&mut` access to a referenced handoff must sit alone in its access group, otherwise the generated code borrows the state mutably and immutably in one group (a borrow
+    error in generated code, and no ordering between the writer and a reader). AccessCounter::next_group(is_mut) therefore hands out `old + a` and leaves the counter at
+    `old + a + b` with a >= 1 (apart from earlier readers) and b >= 1 (apart from later readers); an immutable access returns the counter unchanged."""
+    import mir
+    from mir import op_place, pl_local
+    R = ctx.rule(rid, "AccessCounter::next_group gives a mutable access a group strictly above the previous one and leaves the counter strictly above that group; an immutable access does not move the counter", floor=1)
+    c = mir.load_crate("hydro_lang")
+    bs = [b for n, b in c.bodies.items() if n.endswith("::next_group") and "compile::ir" in n]
+    if not bs:
+        ctx.anchor_missing(R, "AccessCounter::next_group")
+        return
+    b = bs[0]
+    key = "hydro_lang|AccessCounter::next_group"
+    # the switch on the `is_mut` parameter
+    sw = None
+    for bb in range(b.n):
+        t = b.term(bb)
+        if t["k"] == "switch":
+            d = op_place(t["d"])
+            if d is not None:
+                for _bb, idx, rv in b.defs_of(pl_local(d)):
+                    if idx != "term" and rv["k"] == "use" and op_place(rv["ops"][0]) == 2:
+                        sw = (bb, t)
+    if sw is None:
+        ctx.anchor_missing(R, "branch on is_mut in next_group")
+        return
+    bb, t = sw
+    false_t = [tg for v, tg in t["ts"] if int(v) == 0]
+    mut_t = t["o"]
+    imm_t = false_t[0] if false_t else None
+    mut_blocks = b.reachable(start=mut_t) - (b.reachable(start=imm_t) if imm_t is not None else set())
+    imm_blocks = (b.reachable(start=imm_t) if imm_t is not None else set()) - b.reachable(start=mut_t)
+    sets = [(x, tt) for x, tt in b.calls() if (tt.get("f") or {}).get("name") == "set" and "cell" in (tt.get("f") or {}).get("def", "")]
+    mut_sets = [(x, tt) for x, tt in sets if x in mut_blocks]
+    imm_sets = [(x, tt) for x, tt in sets if x in imm_blocks]
+    # returned group: operand of the Frozen(..) aggregate, per branch
+    ret_local = None
+    for _bb, _i, lhs, rv in b.assignments():
+        if lhs == 0 and rv["k"] == "agg" and rv["ops"]:
+            p = op_place(rv["ops"][0])
+            if p is not None:
+                ret_local = pl_local(p)
+                for __bb, idx, r2 in b.defs_of(ret_local):
+                    if idx != "term" and r2["k"] == "use" and isinstance(op_place(r2["ops"][0]), int) and len(b.defs_of(pl_local(op_place(r2["ops"][0])))) > 1:
+                        ret_local = pl_local(op_place(r2["ops"][0]))
+    g_mut = None
+    g_imm = None
+    if ret_local is not None:
+        for dbb, idx, rv in b.defs_of(ret_local):
+            off = 0 if (idx == "term" and (rv.get("f") or {}).get("name") == "get") else (_offset(b, rv["ops"][0]) if idx != "term" and rv["k"] == "use" else None)
+            if dbb in mut_blocks:
+                g_mut = off
+            elif dbb in imm_blocks:
+                g_imm = off
+    s_mut = _offset(b, mut_sets[0][1]["a"][1]) if len(mut_sets) == 1 and len(mut_sets[0][1]["a"]) == 2 else None
+    ctx.inst(R, key, sites=len(sets), sample={"mutable": {"group": g_mut, "counter_after": s_mut}, "immutable": {"group": g_imm, "counter_writes": len(imm_sets)}})
+    if g_mut is None or s_mut is None:
+        ctx.violation(R, key + "|unrecognised-form", "cannot read the mutable branch as group = get() + a, counter = get() + a + b", b.loc(mut_t))
+    else:
+        if g_mut < 1:
+            ctx.violation(R, key + "|mutable-shares-previous-group", "a mutable access is put into the group earlier immutable accesses already use", b.loc(mut_t))
+        if s_mut <= g_mut:
+            ctx.violation(R, key + "|mutable-shares-next-group", "after a mutable access the counter stays at the mutable access's own group (get() + %d, group get() + %d): the next immutable access "
+                          "joins that group - a `&mut` and a `&` borrow of the same state in one access group" % (s_mut, g_mut), b.loc(mut_sets[0][0]))
+    if imm_sets or (g_imm not in (0, None)):
+        ctx.violation(R, key + "|immutable-moves-counter", "an immutable access changes the counter or does not return the current group", b.loc(imm_t if imm_t is not None else bb))
